@@ -59,8 +59,22 @@ Section C10.
   Proof. exact (replayed_join_refused_after_crash E D apps). Qed.
 End C10.
 
+From Lospan Require Import Proof.SchedDataProof.
+(* Crashes, restarts, interleavings and histories together (downlink clause, whole history): every handler of every
+   batch may be cut after any number of operations (BUps ... fuel), the server may be restarted after any batch
+   (restart = true: Steps.recover), batches may hold several handlers interleaved under any schedule - over the whole
+   history no two frames that left carry the same downlink counter, and the stored uplink counter never moves back. *)
+Theorem C10_counters_unique_over_crashes_and_restarts :
+  forall (E D : list N -> list N -> list N) apps evs st r G,
+    ds_row st = Some r -> fb_down st -> d_fdn r = G mod 65536 -> G + N.of_nat (total evs) <= 65536 -> Forall bev_ok evs ->
+    (exists r', ds_row (fst (brun E D apps st evs)) = Some r' /\ same_session r r' /\ d_fup r <= d_fup r') /\
+    NoDup (counters (snd (brun E D apps st evs))) /\
+    Forall (fun x => G <= x < G + N.of_nat (total evs)) (counters (snd (brun E D apps st evs))).
+Proof. exact batches_counters. Qed.
+
 Print Assumptions C10_programs_are_the_handlers.
 Print Assumptions C10_uplink_recorded_at_most_once.
 Print Assumptions C10_downlink_counter_stored_before_use.
 Print Assumptions C10_nonce_stored_before_effects.
 Print Assumptions C10_replayed_join_refused_after_restart.
+Print Assumptions C10_counters_unique_over_crashes_and_restarts.
